@@ -123,6 +123,17 @@ class Ctx:
         if got < want:
             raise AnalysisError(f"rule {rule} matched {got} instance(s), below the floor of {want} confirmed by hand")
 
+    def expect_locals(self, fn: ast.AST, names) -> None:
+        """The rule about to run identifies statements through these local variable names.  If one of them no
+        longer exists in the function (renamed / removed by a refactoring) the rule cannot be evaluated: that is
+        an ANALYSIS-ERROR (the rule must be re-anchored), never a violation."""
+        from .srcmodel import local_names, qualname
+
+        have = set(local_names(fn))
+        missing = [n for n in names if n not in have]
+        if missing:
+            raise AnalysisError(f"anchor vanished: local variable(s) {missing} of {qualname(fn)} (renamed or removed); the rule that reads them must be re-anchored")
+
     def need(self, cond: Any, what: str) -> Any:
         if not cond:
             raise AnalysisError(f"anchor vanished: {what}")
